@@ -210,6 +210,14 @@ fn command_go(
         time = Some(Duration::from_millis(move_time));
     }
 
+    // Raise the flag before the timer thread exists: a short timer could otherwise clear it
+    // first, the search would then never be told to stop
+    #[cfg(daniel729_chess_verif)]
+    crate::verif_hooks::sched("BEFORE_RAISE");
+    search_is_running.store(true, Relaxed);
+    #[cfg(daniel729_chess_verif)]
+    crate::verif_hooks::event("FLAG_RAISED");
+
     if let Some(time) = time {
         if !infinite {
             // Cut 5 ms from the time because sleep always takes more than given
@@ -236,11 +244,6 @@ fn command_go(
     }
 
     let thread = thread::spawn({
-        #[cfg(daniel729_chess_verif)]
-        crate::verif_hooks::sched("BEFORE_RAISE");
-        search_is_running.store(true, Relaxed);
-        #[cfg(daniel729_chess_verif)]
-        crate::verif_hooks::event("FLAG_RAISED");
         let data_mutex = data_mutex.clone();
         let search_is_running = search_is_running.clone();
         move || {
